@@ -20,9 +20,15 @@ type solverSpec struct {
 
 // extra configurations used only when the standard portfolio could not decide an obligation
 var retrySolvers = []solverSpec{
-	{"z3-new/seed7", func(f string, t int) []string { return []string{"z3-new", fmt.Sprintf("-T:%d", t), "smt.random_seed=7", f} }},
-	{"z3-new/seed23", func(f string, t int) []string { return []string{"z3-new", fmt.Sprintf("-T:%d", t), "smt.random_seed=23", "smt.arith.random_initial_value=true", f} }},
-	{"z3/seed11", func(f string, t int) []string { return []string{"z3", fmt.Sprintf("-T:%d", t), "smt.random_seed=11", f} }},
+	{"z3-new/seed7", func(f string, t int) []string {
+		return []string{"z3-new", fmt.Sprintf("-T:%d", t), "smt.random_seed=7", f}
+	}},
+	{"z3-new/seed23", func(f string, t int) []string {
+		return []string{"z3-new", fmt.Sprintf("-T:%d", t), "smt.random_seed=23", "smt.arith.random_initial_value=true", f}
+	}},
+	{"z3/seed11", func(f string, t int) []string {
+		return []string{"z3", fmt.Sprintf("-T:%d", t), "smt.random_seed=11", f}
+	}},
 }
 
 var solvers = []solverSpec{
@@ -33,6 +39,9 @@ var solvers = []solverSpec{
 	}},
 	{"cvc5-enum", func(f string, t int) []string {
 		return []string{"cvc5", "--lang=smt2", fmt.Sprintf("--tlimit=%d", t*1000), "--produce-models", "--enum-inst", f}
+	}},
+	{"cvc5-enum-only", func(f string, t int) []string {
+		return []string{"cvc5", "--lang=smt2", fmt.Sprintf("--tlimit=%d", t*1000), "--produce-models", "--enum-inst", "--no-e-matching", f}
 	}},
 }
 
